@@ -2,6 +2,7 @@ import MgModel.Common.Driver
 import MgModel.C09.Avl
 import MgModel.C09.HashTable
 import MgModel.C09.Trie
+import MgModel.C09.Ops
 open MgModel MgModel.C09 MgModel.Driver
 
 abbrev Key := List UInt8
@@ -75,6 +76,26 @@ def showOpt : Option Nat → String
 
 def both (a b : String) : String := s!"{a} | {b}"
 
+def showOut : Out → String
+  | .flag b => showBool b
+  | .val o => showOpt o
+  | .done => "done"
+
+/-- run one API step on the model and on the reference map; print both answers -/
+def avlOp (st : St) (t : T) (op : Op Int) : St × String :=
+  match avlStep t op with
+  | .ok (t', o) =>
+    let (m', so) := specStepReject st.amap op
+    ({ st with avl := some t', amap := m' }, both (showOut o) (showOut so))
+  | .error _ => (st, "err-null")
+
+def hashOp (st : St) (t : HT Key) (op : Op Key) : St × String :=
+  match hashStep (hashKind st.hkind) t op with
+  | .ok (t', o) =>
+    let (m', so) := specStepReject st.hmap op
+    ({ st with ht := some t', hmap := m' }, both (showOut o) (showOut so))
+  | .error _ => (st, "err-oob")
+
 def stepLine (st : St) : List String → St × String
   -- ---------------- AVL ----------------
   | ["ainit", cap] =>
@@ -85,25 +106,15 @@ def stepLine (st : St) : List String → St × String
     | none => (st, "bad-op")
   | ["ains", k, v] =>
     match st.avl, k.toInt?, v.toNat? with
-    | some t, some k, some v =>
-      match t.insert k v with
-      | .ok (t', b) =>
-        let (m', sb) := st.amap.putNew k v
-        ({ st with avl := some t', amap := m' }, both (showBool b) (showBool sb))
-      | .error _ => (st, "err-null")
+    | some t, some k, some v => avlOp st t (.ins k v)
     | _, _, _ => (st, "bad-op")
   | ["afind", k] =>
     match st.avl, k.toInt? with
-    | some t, some k => (st, both (showOpt (t.find k)) (showOpt (st.amap.get k)))
+    | some t, some k => avlOp st t (.find k)
     | _, _ => (st, "bad-op")
   | ["arm", k] =>
     match st.avl, k.toInt? with
-    | some t, some k =>
-      match t.remove k with
-      | .ok (t', b) =>
-        let (m', sb) := st.amap.erase k
-        ({ st with avl := some t', amap := m' }, both (showBool b) (showBool sb))
-      | .error _ => (st, "err-null")
+    | some t, some k => avlOp st t (.rm k)
     | _, _ => (st, "bad-op")
   | ["adump"] =>
     match st.avl with
@@ -130,31 +141,15 @@ def stepLine (st : St) : List String → St × String
     | _, _, _ => (st, "bad-op")
   | ["hput", k, v] =>
     match st.ht, parseKey k, v.toNat? with
-    | some t, some k, some v =>
-      match t.put (hashKind st.hkind) k v with
-      | .ok none =>
-        let (m', sb) := st.hmap.putNew k v
-        ({ st with hmap := m' }, both "0" (showBool sb))
-      | .ok (some t') =>
-        let (m', sb) := st.hmap.putNew k v
-        ({ st with ht := some t', hmap := m' }, both "1" (showBool sb))
-      | .error _ => (st, "err-oob")
+    | some t, some k, some v => hashOp st t (.ins k v)
     | _, _, _ => (st, "bad-op")
   | ["hfind", k] =>
     match st.ht, parseKey k with
-    | some t, some k =>
-      match t.find (hashKind st.hkind) k with
-      | .ok r => (st, both (showOpt r) (showOpt (st.hmap.get k)))
-      | .error _ => (st, "err-oob")
+    | some t, some k => hashOp st t (.find k)
     | _, _ => (st, "bad-op")
   | ["hrm", k] =>
     match st.ht, parseKey k with
-    | some t, some k =>
-      match t.remove (hashKind st.hkind) k with
-      | .ok (t', b) =>
-        let (m', sb) := st.hmap.erase k
-        ({ st with ht := some t', hmap := m' }, both (showBool b) (showBool sb))
-      | .error _ => (st, "err-oob")
+    | some t, some k => hashOp st t (.rm k)
     | _, _ => (st, "bad-op")
   | ["hdump"] =>
     match st.ht with
@@ -183,16 +178,21 @@ def stepLine (st : St) : List String → St × String
   | ["tins", k, v] =>
     match st.trie, parseKey k, v.toNat? with
     | some t, some k, some v =>
-      let ov := if v = 0 then none else some v
-      let ok := st.tspec && v != 0
-      ({ st with trie := some (t.insert k ov), tmap := st.tmap.set k v, tspec := ok },
-        if ok then both "1" "1" else "1")
+      if v = 0 then
+        -- NULL value: outside the hypotheses of the theorems; model only from here on
+        ({ st with trie := some (t.insert k none), tspec := false }, "1")
+      else
+        let (t', o) := trieStep t (.ins k v)
+        let (m', so) := specStepOverwrite st.tmap (.ins k v)
+        ({ st with trie := some t', tmap := m' },
+          if st.tspec then both (showOut o) (showOut so) else showOut o)
     | _, _, _ => (st, "bad-op")
   | ["tfind", k] =>
     match st.trie, parseKey k with
     | some t, some k =>
-      let a := showOpt (t.lookup k)
-      (st, if st.tspec then both a (showOpt (st.tmap.get k)) else a)
+      let (_, o) := trieStep t (.find k)
+      let (_, so) := specStepOverwrite st.tmap (.find k)
+      (st, if st.tspec then both (showOut o) (showOut so) else showOut o)
     | _, _ => (st, "bad-op")
   | ["tnode", k] =>
     match st.trie, parseKey k with
@@ -201,8 +201,10 @@ def stepLine (st : St) : List String → St × String
   | ["trm", k] =>
     match st.trie, parseKey k with
     | some t, some k =>
-      let (t', b) := t.remove k
-      ({ st with trie := some t', tmap := (st.tmap.erase k).1 }, showBool b)
+      let (t', _) := trieStep t (.rm k)
+      let (m', _) := specStepOverwrite st.tmap (.rm k)
+      -- the C return value (`find` reached a node) is a model-level observation
+      ({ st with trie := some t', tmap := m' }, showBool (t.remove k).2)
     | _, _ => (st, "bad-op")
   | ["tdump"] =>
     match st.trie with
